@@ -215,6 +215,7 @@ func runC40(c *core.Ctx) {
 			c.Broken("C40.select", fn, "already-selected set and leading-proposer set", c.P.Rel(fn.Pos()), "not found")
 			return
 		}
+		checkLeadingProposerCount(c, fn, leading, chP)
 		opt := &eng.Opt{Start: draw}
 		miss := func(m ssa.Value, name string) eng.NamedGuard {
 			return eng.NamedGuard{Name: name, G: func(cd ir.Cond) (bool, bool) {
